@@ -3,7 +3,7 @@ from __future__ import annotations
 
 import z3
 
-from vf import sym, models, ops
+from vf import sym, models, ops, source
 from vf.sym import SV, INT, BOOL, STR, BYTES, Opt, Tup, List, Set, Dict, Ref, Cls
 from vf.interp import Model, Raised, Exc, Obj, LoopSpec, PyRef
 from vf.unit import Unit, Lemma
@@ -540,3 +540,115 @@ def unlock_post(prop):
 
 def unlock_unit(prop):
     return Unit(f'{prop}.unlock', REPO_PY, 'Repository.unlock', unlock_setup, unlock_post(prop), prop=prop)
+
+
+# ------------------------------------------------------------------ _make_key: which generated secret goes where
+def make_key_setup(variant):
+    """variants of `settings`: None / {} / user KDF named like the shared one (blake2b) / private given"""
+    def setup(b):
+        me = shared.repo_self(b, props=False, cache=False)
+        for nm in ('DEFAULT_USER_KDF_NAME', 'DEFAULT_SHARED_KDF_NAME', 'DEFAULT_MAC_NAME'):
+            me._attrs[nm] = source.class_attr(REPO_PY, 'Repository', nm).value
+        b.me = me
+        counter = {'n': 0}
+
+        def gen(kind, owner):
+            def m(interp, st, args, kwargs):
+                counter['n'] += 1
+                r = sym.fresh(BYTES, f'{kind}_{counter["n"]}')
+                st.emit('generate', gen=kind, owner=owner, value=r)
+                yield st, r
+            return Model(kind, m)
+
+        key_bytes = sym.const(INT, 'cipher_key_bytes')
+        b.bind('cipher', Obj('cipher', key_bytes=key_bytes, generate_key=gen('generate_key', 'cipher')))
+        b.bind('chunker', Obj('chunker', generate_chunking_params=gen('generate_chunking_params', 'chunker')))
+        types = {}
+
+        def type_for(name):
+            if name not in types:
+                def ctor(interp, st, args, kwargs, name=name):
+                    counter['n'] += 1
+                    inst = f'{name}#{counter["n"]}'
+                    st.emit('adapter_instance', name=name, instance=inst, kwargs=dict(kwargs))
+                    yield st, Obj(inst, generate_derivation_params=gen('generate_derivation_params', inst),
+                                  generate_mac_params=gen('generate_mac_params', inst))
+                t = Model(name, ctor)
+                t.attrs = {'__name__': name}
+                types[name] = t
+            return types[name]
+
+        def from_config(interp, st, args, kwargs):
+            kw = dict(kwargs)
+            name = kw.pop('name')
+            st.emit('from_config', name=name, kwargs=dict(kw))
+            yield st, (type_for(name), st.new_py('dict', kw))
+
+        b.bind('adapters', Obj('adapters', from_config=Model('from_config', from_config)))
+        if variant == 'none':
+            b.bind('settings', None)
+        elif variant == 'empty':
+            b.bind('settings', b.st.new_py('dict', {}))
+        else:
+            kdf = b.st.new_py('dict', {'name': 'blake2b'})
+            enc = b.st.new_py('dict', {'kdf': kdf})
+            b.bind('settings', b.st.new_py('dict', {'encryption': enc}))
+        if variant == 'private_given':
+            b.bind('private', sym.const(models.opaque_type('GivenPrivate'), 'given_private'))
+        else:
+            b.bind('private', None)
+    return setup
+
+
+def make_key_post(prop, variant):
+    def post(res):
+        n = 0
+        for p in res.paths:
+            if p.kind != 'return':
+                res.oblige(p, f'{prop}.make_key[{variant}].total', z3.BoolVal(False))
+                continue
+            n += 1
+            key = res.interp.deref(p.st, ops.resolve(p.st, p.value))
+            gens = p.events('generate')
+            by_value = {id(e.data['value']): e for e in gens}
+            ok_shape = isinstance(key, dict) and set(key) == {'kdf', 'kdf_params', 'private'}
+            res.oblige(p, f'{prop}.make_key[{variant}].key_has_exactly_kdf_kdf_params_private', z3.BoolVal(ok_shape))
+            if not ok_shape:
+                continue
+            pub = key['kdf_params']
+            e_pub = by_value.get(id(pub))
+            # the readable salt of the user KDF is a value generated FOR IT ALONE by the user KDF's own generator
+            ok_pub = e_pub is not None and e_pub.data['gen'] == 'generate_derivation_params'
+            uses = 1 if ok_pub else 0
+            priv = key['private']
+            if variant == 'private_given':
+                res.oblige(p, f'{prop}.make_key[{variant}].given_private_section_passes_through', z3.BoolVal(
+                    isinstance(priv, SV) and priv is res.builder.st.lookup('private') and len(gens) == 1 and not p.events('opaque_item_store')))
+            else:
+                pd = res.interp.deref(p.st, ops.resolve(p.st, priv)) if priv is not None else None
+                want = {'shared_key': 'generate_key', 'shared_kdf_params': 'generate_derivation_params', 'mac_params': 'generate_mac_params',
+                        'chunker_params': 'generate_chunking_params'}
+                ok_priv = isinstance(pd, dict) and set(pd) == set(want) | {'shared_kdf', 'mac'}
+                if ok_priv:
+                    origins = []
+                    for k, kind in want.items():
+                        e = by_value.get(id(pd[k]))
+                        ok_priv = ok_priv and e is not None and e.data['gen'] == kind
+                        origins.append(id(pd[k]))
+                    # every secret of the private section comes from its own generator call; none of them is the public salt
+                    ok_priv = ok_priv and len(set(origins)) == 4 and id(pub) not in origins
+                    # ... and the two KDF salts come from two different adapter instances' calls
+                    if ok_priv and e_pub is not None:
+                        ok_priv = by_value[id(pd['shared_kdf_params'])] is not e_pub
+                res.oblige(p, f'{prop}.make_key[{variant}].private_secrets_each_from_their_own_generator_call', z3.BoolVal(bool(ok_priv)))
+            res.oblige(p, f'{prop}.make_key[{variant}].public_salt_is_generated_for_the_user_kdf_alone', z3.BoolVal(bool(ok_pub)))
+            kdf = res.interp.deref(p.st, ops.resolve(p.st, key['kdf']))
+            res.oblige(p, f'{prop}.make_key[{variant}].public_kdf_description_holds_parameters_only', z3.BoolVal(
+                isinstance(kdf, dict) and 'name' in kdf and not any(isinstance(v, SV) and v.ty == BYTES for v in kdf.values())))
+        res.oblige([], f'{prop}.make_key[{variant}].paths_checked', z3.BoolVal(n >= 1))
+    return post
+
+
+def make_key_units(prop):
+    return [Unit(f'{prop}.make_key[{v}]', REPO_PY, 'Repository._make_key', make_key_setup(v), make_key_post(prop, v), prop=prop)
+            for v in ('none', 'empty', 'user_kdf_blake2b', 'private_given')]
